@@ -1,5 +1,6 @@
 import Ink.Native
 import Ink.Save
+import Ink.State
 import Generated.Tables
 
 /-!
@@ -78,5 +79,31 @@ command token -/
 theorem op_cmd_disjoint :
     ∀ n ∈ Generated.opRows.map (fun r => r.2.1), n ∉ Generated.cmdRows.map (fun r => r.2) := by
   simp [Generated.opRows, Generated.cmdRows]
+
+/-! ### scalar constants -/
+
+/-- the named numeric constants of the model, under the names of the Rust constants they copy -/
+def modelNumConsts : List (String × Int) :=
+  [("INK_SAVE_STATE_VERSION", Save.inkSaveStateVersion), ("MIN_COMPATIBLE_LOAD_VERSION", Save.minCompatibleLoadVersion),
+   ("INK_VERSION_CURRENT", Load.inkVersionCurrent), ("INK_VERSION_MINIMUM_COMPATIBLE", Load.inkVersionMinimum),
+   ("MAX_POINTER_CHAIN", (Core.maxPointerChain : Nat))]
+
+def modelStrConsts : List (String × String) :=
+  [("DEFAULT_FLOW_NAME", defaultFlowName), ("PARENT_ID", String.ofList Comp.parentId)]
+
+/-- every named numeric constant of the model has the value the Rust source gives it -/
+theorem num_consts_match :
+    ∀ r ∈ modelNumConsts, (Generated.numConsts.lookup r.1).map Int.ofNat = some r.2 := by
+  simp [modelNumConsts, Generated.numConsts, List.lookup, Save.inkSaveStateVersion, Save.minCompatibleLoadVersion,
+    Load.inkVersionCurrent, Load.inkVersionMinimum, Core.maxPointerChain]
+
+theorem str_consts_match : modelStrConsts = Generated.strConsts := by
+  simp [modelStrConsts, Generated.strConsts, defaultFlowName, Comp.parentId]
+
+/-- the bits the model tests for "visits counted / turns counted / count at start only" are the Rust flag values -/
+theorem count_flags_match :
+    (Generated.numConsts.lookup "COUNTFLAGS_VISITS", Generated.numConsts.lookup "COUNTFLAGS_TURNS",
+     Generated.numConsts.lookup "COUNTFLAGS_COUNTSTARTONLY") = (some (2 ^ 0), some (2 ^ 1), some (2 ^ 2)) := by
+  simp [Generated.numConsts, List.lookup]
 
 end Ink.Tables
